@@ -188,6 +188,8 @@ def heuristic_class(b, r, base, js):
     if b == 4:
         return "sr-exp2-nonliteral"
     if b == 2:
+        if re.search(r"(&&|\|\||\?\?)\s*\(*\s*(function\b|class\b|\([^()]*\)\s*=>)", js) and "name" in js:
+            return "fold-logical-function-name"
         if re.search(r"\([^()]*(&&|\|\||\?\?)[^()]*\)\s*\(", js) or re.search(r"(delete|typeof)\s*\([^()]*(&&|\|\||\?\?)", js):
             return "fold-logical-reference"
         if re.search(r"\b0 / -", js):
@@ -256,6 +258,10 @@ def explain_many(items, fixbits):
                         if h is not None and not (fixbits >> FIX_CLASS.index(h)) & 1:
                             cl.add(h)
                             break
+            if not cl:
+                h = heuristic_class(2, res[b], res[0], js) if (b & 2) else None
+                if h == "fold-logical-function-name":       # no repair of it is modelled: a predicate over text + behaviour
+                    cl.add(h)
             if cl:
                 classes |= cl
             else:
@@ -591,7 +597,7 @@ def main():
                "differing_optbits": [str(b) for b in bad_bits],
                "impl_output": {str(k): v for k, v in run_js_multi(jsbin, shr, [0, 2, 4, 8, 14]).items()},
                "obligation": "trace(P, optimizer passes O) = trace(P, OptimizerOptions::empty())",
-               "fix": "fixes.d/C05-%s.patch" % FIX_NAMES[FIX_CLASS.index(cl)],
+               "fix": "fixes.d/C05-%s.patch" % (FIX_NAMES[FIX_CLASS.index(cl)] if cl in FIX_CLASS else cl),
                "how_to_rerun": "./check replay <this file>   (runs the program under opt=0,2,4,8,14,default and prints the optimized ASTs)"}
         run.violation(obj)
     for name, js, bad_bits, classes, unexplained in unclassified[:5]:
